@@ -98,7 +98,11 @@ def r2(cx):
         sends = [n for n in g.nodes if _send_ev(n) == ('send',)]
         last_is_marker = bool(sends) and all(
             any(mentions(a, lambda x: x[0] == 'agg' and x[2].endswith('Message::Complete')) for a in n['args']) for n in sends[-1:])
-        if not last_is_marker:
+        # the marker only guarantees the end of the stream when its send is checked: a send whose result is thrown away can
+        # fail (the receiving side may have closed the channel already) and the stream would never learn it is over
+        checked = bool(sends) and any(x['kind'] == 'call' and x['name'].rsplit('::', 1)[-1] in ('expect', 'unwrap') and x['args'] and
+                                      mentions(x['args'][0], lambda e, v=strip(sends[-1]['value']): strip(e) == v) for x in g.nodes)
+        if not (last_is_marker and checked):
             marker_all = False
     # (b) poll_next: Pending only propagated, closed channel -> Ready(None)
     fn = F.impl_fn(streams[0], 'poll_next')
